@@ -310,7 +310,15 @@ func init() {
 			fr.i.p.tlo, fr.i.p.thi = bigOf(a[0]), bigOf(a[1])
 			return nil, true
 		},
-		"vxLog": func(fr *frame, a []value) (value, bool) { return nil, true },
+		"vxLog": func(fr *frame, a []value) (value, bool) {
+			if os.Getenv("VX_DEBUG") != "" {
+				for _, x := range a[0].([]value) {
+					fmt.Fprintf(os.Stderr, "VXLOG %s ", toString(x))
+				}
+				fmt.Fprintln(os.Stderr)
+			}
+			return nil, true
+		},
 		"vxStop": func(fr *frame, a []value) (value, bool) { panic(pathEnd{}) },
 		"vxTier": func(fr *frame, a []value) (value, bool) { return os.Getenv("VX_TIER"), true },
 		"vxLabelOn": func(fr *frame, a []value) (value, bool) {
@@ -493,6 +501,10 @@ func init() {
 		rp := (*a[0].(*value)).(structure)
 		rt := fr.i.namedType("strings", "Replacer")
 		oldnew, _ := rp[fieldIndex(rt, "oldnew")].([]value)
+		if len(oldnew) == 0 {
+			// buildOnce (run by an earlier Replace of a concrete string) cleared the field
+			oldnew = fr.i.replacerPairs[a[0].(*value)]
+		}
 		var out []value
 		for pos := 0; pos < len(src.b); {
 			replaced := false
@@ -521,6 +533,18 @@ func init() {
 			}
 		}
 		return mkSstr(out), true
+	}
+	ext["(*strings.Replacer).buildOnce"] = func(fr *frame, a []value) (value, bool) {
+		// remember the pairs: the real buildOnce clears r.oldnew
+		rp := (*a[0].(*value)).(structure)
+		rt := fr.i.namedType("strings", "Replacer")
+		if on, _ := rp[fieldIndex(rt, "oldnew")].([]value); len(on) > 0 {
+			if fr.i.replacerPairs == nil {
+				fr.i.replacerPairs = map[*value][]value{}
+			}
+			fr.i.replacerPairs[a[0].(*value)] = append([]value(nil), on...)
+		}
+		return nil, false
 	}
 	ext["strings.ToLower"] = caseMap(true)
 	ext["strings.ToUpper"] = caseMap(false)
